@@ -280,6 +280,23 @@ func dmCuts(lines []string) []dmCut {
 				for _, k := range kids[2:] {
 					cs = append(cs, dmCut{kids[0], k - 1, false})
 				}
+				// ddmin-style chunks of the statement list (2, 4, 8 parts)
+				for _, parts := range []int{2, 4, 8} {
+					if len(kids) < parts*2 {
+						break
+					}
+					for c := 0; c < parts; c++ {
+						from := kids[c*len(kids)/parts]
+						hi := (c + 1) * len(kids) / parts
+						to := e - 1
+						if hi < len(kids) {
+							to = kids[hi] - 1
+						}
+						if to > from {
+							cs = append(cs, dmCut{from, to, false})
+						}
+					}
+				}
 			}
 			if !strings.HasPrefix(t, "access(") && !strings.HasPrefix(t, "transaction") && !strings.HasPrefix(t, "prepare") {
 				cs = append(cs, dmCut{i, e, true})
